@@ -168,6 +168,12 @@ def run(ctx):
                         'reference_bytes': R.encode(sig2, tv2, off2, little2).hex()[:200]})
         if ctx.stop_early() or (i % 128 == 0 and ctx.out_of_time()):
             break
+    # whole messages: header fields are (code, variant) entries, so the wire format of a message depends on the same
+    # encoder - including when a parsed message is written out again, which is what passes through the built-in bus
+    from checks.c03 import check_foreign
+    for k in range(400 if ctx.tier == 'quick' else 4000):
+        check_foreign(ctx, ctx.seed, 500000 + k * (ctx.shard or (0, 1))[1] + (ctx.shard or (0, 1))[0])
+    ctx.count('whole_messages_reserialised', ctx.counters.get('reserialised', 0))
     ctx.require(ctx.counters.get('byte_identical', 0) > 500, 'too few byte-identical comparisons')
     ctx.require(ctx.counters.get('dir_b', 0) > 500, 'too few foreign decodes')
 
